@@ -18,7 +18,16 @@ class C06(WigBedProp):
         for k in range(n):
             r = rng.fork(k)
             o = bbgen.gen_options(r, tier)
-            if r.chance(1, 2):
+            if k % 8 == 5:
+                # genome-scale coordinates: chromosomes of up to 2^32 - 1 bases, single values / entries longer than 2^24 bases
+                bed = r.chance(1, 2)
+                names, sizes, data, tags = bbgen.gen_genome_scale(r, bed=bed, value_mode="int", nitems=r.choice([3, 8, 30]))
+                o["zooms"] = r.choice(["none", "50000000", "16777216,67108864"])
+                lines = [bbgen.opt_line(o)] + (bbgen.bed_lines(names, sizes, data) if bed else bbgen.wig_lines(names, sizes, data))
+                kind = "bed" if bed else "wig"
+                if bed and any(a[1] > b[0] for nm in names for a, b in zip(data[nm], data[nm][1:])):
+                    tags.add("nt")
+            elif r.chance(1, 2):
                 names, sizes, data, tags = bbgen.gen_wig_input(r, value_mode="int")
                 if len(names) > 1 and r.chance(1, 2):
                     # cross-chromosome extremes: a chromosome's (min, max) relates to the earlier ones' in every way —
